@@ -33,6 +33,66 @@ func registerStd(e *Engine) {
 	})
 	e.reg("time.runtimeNano", func(e *Engine, st *State, cc *CallCtx) (Value, bool) { return c.Const(1000000000, 64), true })
 	e.reg("time.registerLoadFromEmbeddedTZData", nop)
+	// sort.Slice / sort.SliceStable (reflection-based in std): all pairwise less(i,j) are evaluated on the
+	// unmodified slice (summarised calls), the order is decided by branching on them, and the permutation is
+	// applied in one step at the end (stable insertion order; equal elements keep their order).
+	sortSlice := func(e *Engine, st *State, cc *CallCtx) (Value, bool) {
+		iv, ok := cc.Args[0].(IfaceV)
+		if !ok {
+			panic(unsupported("sort.Slice: argument is not an interface"))
+		}
+		sl, ok := iv.V.(SliceV)
+		if !ok {
+			panic(unsupported("sort.Slice: not a slice"))
+		}
+		less := cc.Args[1].(FuncV)
+		if sl.Nil || sl.Base.Obj == 0 {
+			return nil, true
+		}
+		if !sl.Len.IsConst() || !sl.Off.IsConst() {
+			panic(unsupported("sort.Slice: symbolic slice bounds"))
+		}
+		n, off := int(sl.Len.Val), int(sl.Off.Val)
+		if n < 2 {
+			return nil, true
+		}
+		if n > 12 {
+			panic(unsupported("sort.Slice: more than 12 elements"))
+		}
+		lt := func(i, j int) bool { // decided on the original order
+			t := e.summarise(st, less, []Value{e.k64(uint64(i)), e.k64(uint64(j))})
+			return e.branch(st, t)
+		}
+		perm := []int{0}
+		for i := 1; i < n; i++ {
+			pos := len(perm)
+			for pos > 0 && lt(i, perm[pos-1]) {
+				pos--
+			}
+			perm = append(perm[:pos], append([]int{i}, perm[pos:]...)...)
+		}
+		cell := e.objCell(st, sl.Base)
+		switch a := cell.(type) {
+		case ArrV:
+			na := ArrV{E: append([]Value(nil), a.E...)}
+			for k, src := range perm {
+				na.E[off+k] = a.E[off+src]
+			}
+			e.setCell(st, sl.Base, na)
+		case BArrV:
+			arr := a.A
+			for k, src := range perm {
+				arr = c.Store(arr, e.k64(uint64(off+k)), c.Select(a.A, e.k64(uint64(off+src))))
+			}
+			a.A = arr
+			e.setCell(st, Ptr{Obj: sl.Base.Obj, Path: sl.Base.Path}, a)
+		default:
+			panic(unsupported("sort.Slice: unexpected backing store"))
+		}
+		return nil, true
+	}
+	e.reg("sort.Slice", sortSlice)
+	e.reg("sort.SliceStable", sortSlice)
 	// bytes.Compare / bytes.Equal on byte slices as terms
 	e.reg("bytes.Compare", func(e *Engine, st *State, cc *CallCtx) (Value, bool) {
 		a := e.sliceToStr(st, cc.Args[0].(SliceV))
